@@ -304,7 +304,7 @@ def run(model, rep, tier):
                       f"victim is {victim[1]} but used nodes are linked at {mru_side}: not least-recently-used", stmt="victim-end")
     # dict/ring pairing in put/get/flush
     n_pair = 0
-    for qn in ["dns.resolver.LRUCache.put", "dns.resolver.LRUCache.get", "dns.resolver.LRUCache.flush"]:
+    for qn in sorted(g.qualname for g in model.all_functions() if g.cls is lru and g.name != "__init__"):
         f2 = model.func(qn)
         for blk in _blocks(f2.node):
             dels = [(st, src(st.targets[0].slice)) for st in blk if isinstance(st, ast.Delete) and isinstance(st.targets[0], ast.Subscript) and src(st.targets[0].value) == "self.data"]
@@ -383,6 +383,9 @@ def _unlinked_before(fi, del_stmt, owner):
 
 
 WITNESSES = [
+    {"id": "c17-hits-for-key-purges-without-unlink", "rule": "R-17.4", "file": "dns/resolver.py", "expect": "fires",
+     "old": "            if node is None or node.value.expiration <= time.time():\n                return 0\n            else:\n                return node.hits",
+     "new": "            if node is None:\n                return 0\n            if node.value.expiration <= time.time():\n                del self.data[node.key]\n                return 0\n            return node.hits"},
     {"id": "c17-expiration-from-final-rrset-ttl", "rule": "R-17.7", "file": "dns/resolver.py", "expect": "fires",
      "old": "        self.expiration = time.time() + self.chaining_result.minimum_ttl", "new": "        self.expiration = time.time() + (self.rrset.ttl if self.rrset is not None else self.chaining_result.minimum_ttl)"},
     {"id": "c17-twin-expiration-commuted", "rule": "R-17.7", "file": "dns/resolver.py", "expect": "silent",
